@@ -254,7 +254,7 @@ theorem parseOptI_res (p : Bytes) (s : Sector) : (SectorI.parseOpt p s).res = Se
   simp [SectorI.parseOpt, Sector.parseOpt, optLoopI_res]
 
 theorem parseRRI_res (p : Bytes) (s : Sector) (sec : Section) : (SectorI.parseRR p s sec).res = Sector.parseRR p s sec := by
-  unfold SectorI.parseRR Sector.parseRR
+  unfold SectorI.parseRR SectorI.rrBody Sector.parseRR
   simp only [res_bind, res_tick, res_lift, Res.bind_ok, skipNameI_res]
   congr 1; funext s1
   congr 1; funext t
